@@ -38,6 +38,35 @@ CHECKS = {
              'schedules finer than the oracle mutex, lsm-tree prefix_to_range.',
         technique='MIR symbolic execution + z3 equivalence with a reference specification; native SSI replay',
     ),
+    'C01': dict(
+        category='model_checking',
+        text='MIR symbolic execution of every write (insert/remove/remove_weak/clear/batch commit) and read entry point of a keyspace, of Iter/Guard and of the '
+             'maintenance workers; z3 decides on all paths that the caller\'s key/value/kind reach this handle\'s tree exactly once with the one seqno drawn, that the '
+             'write is published before the call returns, that reads pass the key unchanged at SeqNo::MAX and forward to the same-named tree method, and that maintenance '
+             'hands the tree the tracker\'s GC watermark. lsm-tree itself is covered by contract E1-E8 only. Counterexamples are replayed natively against a sorted reference map.',
+        design_ref='DESIGN.md §5 C01',
+        note='Trusted: lsm-tree implements an MVCC ordered map (E1-E8), conversions preserve byte identity. Outside: lsm-tree internals (tables, merge, blob separation), '
+             'key/value sizes, configurations other than through the contract, concurrency (C14).',
+        technique='MIR symbolic execution + z3 dataflow validity queries; native reference-model replay',
+    ),
+    'C06': dict(
+        category='model_checking',
+        text='MIR symbolic execution of WriteBatch::commit (single seqno, publish after the last apply and before unlock), call-site scan of every function that raises the '
+             'visible seqno, dataflow of the counters handed to lsm-tree, and a z3 model with a symbolic schedule over the step order extracted from commit: committer ‖ snapshot reader '
+             '(must be unsat) and committer ‖ reader ‖ one lsm-tree version change per contract E5 (sat: known finding, replayed natively with a pause between the per-item applies).',
+        design_ref='DESIGN.md §5 C06',
+        note='Trusted: E2/E5 for lsm-tree, event-granularity atomicity (E10). Outside: batches of more than 3 items, more than one version change, memory-model effects.',
+        technique='MIR symbolic execution + z3 bounded schedule model; native two-thread replay through pause hooks',
+    ),
+    'C14': dict(
+        category='model_checking',
+        text='MIR symbolic execution of every writer: z3/path analysis shows seqno draw, journal appends, tree apply and publish inside one critical section of the journal mutex; '
+             'rotation protocol and ingestion locking; a z3 model with a symbolic schedule of two writers (steps extracted from insert) and a reader proves every interleaving linearizable '
+             '(with a vacuity twin without the mutex that must be satisfiable). Liveness of write stalls is not applicable.',
+        design_ref='DESIGN.md §5 C14',
+        note='Trusted: Mutex mutual exclusion, sequential consistency at event granularity, lsm-tree memtable linearizability (E10). Outside: liveness, more than 2 writers + 1 reader, hardware memory ordering.',
+        technique='MIR symbolic execution + z3 bounded schedule model; native two-thread replay',
+    ),
 }
 
 NOT_YET = {}
